@@ -6,7 +6,7 @@ use crate::e1::{VecResult, Vector, E1};
 use crate::expect::Expectation;
 use crate::report::Report;
 use crate::tape::{fnv_str, sample_tapes, Tape};
-use crate::world::exec::{corruptions, enum_leaf_sentinels, json_eq, payload, Executor};
+use crate::world::exec::{enum_leaf_sentinels, json_eq, payload, Executor};
 use crate::world::inputs::{assignment_input, InputGen};
 use crate::world::options::Opts;
 use serde_json::{json, Value};
@@ -97,12 +97,8 @@ fn build_group(tape: &[u8], stats: &mut GenStats, n_variants: usize) -> Option<G
                     }
                 }
                 if pk == 0 || pk == 3 {
-                    let mut cs = corruptions(&p, false, &base.world.schema);
                     let mut st = Tape::new(&sub[300..]);
-                    while cs.len() > 12 {
-                        let i = st.below(cs.len());
-                        cs.swap_remove(i);
-                    }
+                    let cs = crate::world::exec::corruptions_capped(&p, false, &base.world.schema, 12, &mut st);
                     for c in cs {
                         labels.push(format!("corruption {} op={}", c.rule, u.op_name));
                         base.case.vectors.push(Vector { unit: ui, kind: "response".into(), name: String::new(), input: c.payload });
